@@ -50,6 +50,8 @@ fn main() {
 		("C20", Some(c)) => checks::c20::replay(ctx.clone(), c),
 		("C01", None) => checks::c01::run(ctx.clone()),
 		("C01", Some(c)) => checks::c01::replay(ctx.clone(), c),
+		("C02", None) => checks::c02::run(ctx.clone()),
+		("C02", Some(c)) => checks::c02::replay(ctx.clone(), c),
 		("C12", None) => checks::c12::run(ctx.clone()),
 		("C12", Some(c)) => checks::c12::replay(ctx.clone(), c),
 		("C14", None) => checks::c14::run(ctx.clone()),
